@@ -30,8 +30,34 @@ Theorem C15_accumulation_exact : forall l B, 0 <= B -> Forall (fun c => Z.abs c 
 Proof. exact sum_i64_exact. Qed.
 Print Assumptions C15_accumulation_exact.
 
-(* PARTIAL: prod / cumprod / cumsum / trace exactness and the model-level dot are not theorems yet
-   (their bounds follow the same pattern); they are covered by the correspondence run. *)
+(* cumsum: every prefix sum, exact, no flag (same growth as sum) *)
+Theorem C15_cumsum_exact : forall f total l r o, 1 <= nw f -> 1 <= total -> Z.of_nat (length l) <= total ->
+  clog2 total + nw f <= 62 -> Forall (in_range f) l ->
+  exists w, fxp_cumsum f total l r o = Ok (sum_fmt f total, w) /\ w_codes w = prefix_sums 0 l /\ w_ovf w = false /\ w_unf w = false.
+Proof. exact fxp_cumsum_exact. Qed.
+Print Assumptions C15_cumsum_exact.
+
+(* prod: the exact product in a word `count` times as wide; it never overflows that word *)
+Theorem C15_prod_no_overflow : forall f l, 1 <= nw f -> (1 <= length l)%nat -> Forall (in_range f) l ->
+  in_range (prod_fmt f (Z.of_nat (length l))) (zprod l).
+Proof. exact prod_in_range. Qed.
+Print Assumptions C15_prod_no_overflow.
+Theorem C15_prod_exact : forall f l r o, 1 <= nw f -> (1 <= length l)%nat -> Z.of_nat (length l) * nw f <= 62 -> Forall (in_range f) l ->
+  exists w, fxp_prod f (Z.of_nat (length l)) l r o = Ok (prod_fmt f (Z.of_nat (length l)), w) /\
+    w_codes w = [zprod l] /\ w_ovf w = false /\ w_unf w = false.
+Proof. exact fxp_prod_exact. Qed.
+Print Assumptions C15_prod_exact.
+
+(* dot (one entry of a vector or matrix product): the exact sum of the products *)
+Theorem C15_dot_exact : forall fx fy xs ys r o, 1 <= nw fx -> 1 <= nw fy -> length xs = length ys -> (1 <= length xs)%nat ->
+  clog2 (Z.of_nat (length xs)) + nw fx + nw fy <= 62 -> Forall (in_range fx) xs -> Forall (in_range fy) ys ->
+  exists w, fxp_dot fx fy xs ys r o = Ok (dot_fmt fx fy (Z.of_nat (length xs)), w) /\
+    w_codes w = [zsum (map (fun p => fst p * snd p) (combine xs ys))] /\ w_ovf w = false /\ w_unf w = false.
+Proof. exact fxp_dot_exact. Qed.
+Print Assumptions C15_dot_exact.
+
+(* PARTIAL: cumprod and trace are modelled by the same accumulation (scan / sum of the diagonal)
+   but are not stated as theorems; they are covered by the correspondence run. *)
 Example C15_nonvacuous :
   let f := {| sg := true; nw := 4; nf := 1 |} in
   fxp_sum f 5 [-8; -8; -8; -8; -8] Trunc Saturate = Ok ({| sg := true; nw := 7; nf := 1 |}, {| w_codes := [-40]; w_ovf := false; w_unf := false; w_inacc := false |}) /\
